@@ -51,11 +51,12 @@ import (
 
 func init() {
 	core.Register(core.Check{ID: "C20", Level: "model_checking", Run: func(c *core.Ctx) {
+		waitArch := background(func() { curlVariantPasses(c, "C20") })
 		runC20(c)
 		c20StackSweep(c, "C20")
 		historyPass(c, "C20")
 		reentrancyPass(c, "C20")
-		curlVariantPasses(c, "C20")
+		waitArch()
 	}})
 	// helper run inside the purego-built binary; prints digests, decides nothing
 	core.Register(core.Check{ID: "C20purego", Level: "other", Run: runC20Purego})
